@@ -23,6 +23,14 @@ impl Model<'_> {
         let svd = j_dense.svd().map_err(NonLinearSystemError::FaerSvd)?;
         let svd_s = svd.S();
         let svd_v = svd.V();
+        #[cfg(feature = "verif-hooks")]
+        if crate::verif_hooks::trace_enabled() {
+            let sigma: Vec<f64> = svd_s.column_vector().iter().copied().collect();
+            let v: Vec<Vec<f64>> = (0..svd_v.nrows())
+                .map(|j| (0..svd_v.ncols()).map(|k| *svd_v.get(j, k)).collect())
+                .collect();
+            crate::verif_hooks::trace_push(crate::verif_hooks::TraceEvent::Dof { nvars, sigma, v });
+        }
 
         let underconstrained = calculate(svd_s, svd_v, nvars)?;
         Ok(FreedomAnalysis::new(underconstrained))
